@@ -167,6 +167,7 @@ pub struct World {
     pub stdin: Vec<u8>,
     pub stdin_pos: usize,
     pub stdin_tty: bool,
+    pub stdout_tty: bool,
     pub stdout: Vec<u8>,
     pub stderr: Vec<u8>,
     pub argv: Vec<String>,
@@ -792,7 +793,7 @@ pub mod simstd {
         }
         impl IsTerminal for Stdout {
             fn is_terminal(&self) -> bool {
-                false
+                with_world(|w| w.stdout_tty)
             }
         }
         impl IsTerminal for Stderr {
@@ -1018,6 +1019,7 @@ pub mod simatty {
                 ev!(w, "isatty <stdin> -> {}", w.stdin_tty);
                 w.stdin_tty
             }),
+            Stream::Stdout => crate::world::with_world(|w| w.stdout_tty),
             _ => false,
         }
     }
@@ -1099,6 +1101,9 @@ pub struct Exec {
     pub clock: ClockSpec,
     #[serde(default)]
     pub io: IoPlan,
+    /// standard output is a terminal (only what `atty` / `IsTerminal` report changes)
+    #[serde(default)]
+    pub stdout_tty: bool,
 }
 
 #[derive(Clone, Debug)]
@@ -1129,7 +1134,7 @@ impl Outcome {
     }
 }
 
-const ENV_KEYS: [&str; 4] = ["TZ", "LANG", "LC_ALL", "LC_TIME"];
+const ENV_KEYS: [&str; 9] = ["TZ", "LANG", "LC_ALL", "LC_TIME", "NO_COLOR", "CLICOLOR", "CLICOLOR_FORCE", "TERM", "COLUMNS"];
 
 thread_local! {
     static PANIC_MSG: std::cell::RefCell<Option<String>> = const { std::cell::RefCell::new(None) };
@@ -1175,6 +1180,7 @@ pub fn execute(fs: &mut Fs, ex: &Exec, entry: fn()) -> Outcome {
         fs: std::mem::take(fs),
         stdin,
         stdin_tty: tty,
+        stdout_tty: ex.stdout_tty,
         argv: ex.argv.clone(),
         plan: ex.io.clone(),
         rng: ex.io.seed ^ 0xA5A5_5A5A_DEAD_BEEF,
